@@ -54,7 +54,7 @@ fn two_different(c: &mut Choices) -> ((String, String), (String, String)) {
     }
 }
 
-pub const N_SNIPPETS: usize = 39;
+pub const N_SNIPPETS: usize = 40;
 
 pub fn snippet(k: usize, c: &mut Choices) -> Snippet {
     let mut decls = String::new();
@@ -358,7 +358,7 @@ pub fn snippet(k: usize, c: &mut Choices) -> Snippet {
         34 => {
             // a loop, an `if` without else or a short-circuit operator may not run the part that
             // leaves the function, so the body still needs a value of the return type at its end
-            let d = match c.below(8) {
+            let d = match c.below(11) {
                 0 => "fn zz_cond(c: bool) -> i32 { c && return 1; }\n",
                 1 => "fn zz_cond(c: bool) -> i32 { c || return 1; }\n",
                 2 => "fn zz_cond(c: bool) -> i32 { while c { return 1; } }\n",
@@ -366,6 +366,9 @@ pub fn snippet(k: usize, c: &mut Choices) -> Snippet {
                 4 => "fn zz_cond(c: bool) -> i32 { if c { return 1; } }\n",
                 5 => "fn zz_cond(c: bool) -> String { (c && return \"a\") || c; }\n",
                 6 => "fn zz_cond(c: i32?) -> i32 { match c { Some(x) => { return x; } None => {} } }\n",
+                8 => "fn zz_cond(c: i32?) -> i32 { match c { Some(x) if x > 100 => { } Some(x) => { return x; } None => { return 0; } }; }\n",
+                9 => "fn zz_cond(c: i32?) -> String { match c { Some(x) => { return \"a\"; } _ if true => { } None => { return \"b\"; } } }\n",
+                10 => "fn zz_cond(c: i32?) -> i32 { let zz = match c { Some(x) if x == 1 => { 7 } Some(x) => { return x; } None => { return 0; } }; }\n",
                 _ => "fn zz_cond(c: bool) -> i32 { let zz = c && { return 1 }; }\n",
             };
             decls.push_str(d);
@@ -499,6 +502,18 @@ pub fn snippet(k: usize, c: &mut Choices) -> Snippet {
             };
             decls.push_str(&d);
             ("exit-without-the-required-value", "let zz = 1;\n".to_string())
+        }
+        39 => {
+            // an interpolated value needs a method `to_string(self) -> String`
+            let s = match c.below(6) {
+                0 => "let zz = f\"v: {mkpad()}\";\n",
+                1 => "let zzp = mkpad();\nlet zz = f\"{zzp} and {zzp}\";\n",
+                2 => "let zz = f\"{mknum()}\";\n",
+                3 => "let zzn = mknum();\nlet zz = \"a\" + f\"{zzn}\";\n",
+                4 => "let zz = f\"{[1, 2]}\";\n",
+                _ => "let zz = f\"{{ {Option.Some(1)} }}\";\n",
+            };
+            ("interpolation-of-a-value-without-a-fitting-to-string", s.to_string())
         }
         _ => {
             let s = match c.below(3) {
